@@ -147,7 +147,7 @@ def measures(base, frames, n=None, i=None):
     return out
 
 
-def run_step(prog, n0, i0, frames, base=BOTTOM, ranges=None, max_configs=20000):
+def run_step(prog, n0, i0, frames, base=BOTTOM, ranges=None, max_configs=4000):
     """one iteration of skip's outer loop from the given implementation state; returns (inst, outcomes, machine, head, names)"""
     inst = prog.one(c06.SKIP)
     if inst is None:
@@ -176,7 +176,7 @@ def run_step(prog, n0, i0, frames, base=BOTTOM, ranges=None, max_configs=20000):
     for it in ('BytesIter', 'StrIter'):
         ov["<minicbor::decode::decoder::%s<'_, '_> as std::iter::Iterator>::next" % it] = (
             lambda m, cfg, f, args, t: Fork([(None, NONE), (lambda s: s.events.append(('EOI', 'chunk')), some(err(l1.eoi_error())))]))
-    m = Machine(prog, prims=prims.P, overrides=ov, max_configs=max_configs, max_steps=4000000)
+    m = Machine(prog, prims=prims.P, overrides=ov, max_configs=max_configs, max_steps=600000)
     m.cuts = {outer_head}
     st = State()
     for s_, (ty, rng) in (ranges or {}).items():
@@ -298,12 +298,17 @@ def sim(ctx, prog, label, has_stack):
         fams += [(nm, zero, zero, fr, base, rg) for nm, fr, base, rg in stack_families()]
     nrows = 0
     nfam = 0
+    nabort = 0
     for nm, n0, i0, frames, base, rg in fams:
         key0 = '%s|%s' % (label, nm)
         try:
             r = run_step(prog, n0, i0, frames, base, rg)
         except Abort as e:
             ctx.fail_closed(rule, '%s: the step cannot be interpreted: %s' % (key0, e))
+            nabort += 1
+            if nabort >= 3:
+                ctx.fail_closed(rule, '%s: three state shapes in a row cannot be interpreted; the remaining ones are not attempted' % label)
+                return nrows
             continue
         if r is None:
             ctx.fail_closed(rule, 'Decoder::skip not found')
